@@ -1,65 +1,203 @@
 (* Property C17 — versioned conversion composes, reaches the latest version, leaves input intact.
    This file holds only the property theorems; each is closed by [exact] of a lemma proved in
-   Ser/VersionedProofs.v and followed by Print Assumptions. *)
+   Ser/VersionedProofs.v, Ser/VersionedDeserProofs.v or Ser/VersionedSrc.v and followed by Print Assumptions.
+
+   Three layers:
+     C17_*          over the model, for every family of user functions [fn] and every setting [p] of the integer
+                    literals of convert_dict that passes cd_params_ok; for deserialization, for every table of
+                    read sites that passes sites_ok;
+     C17_src_*      the same theorems instantiated at the tables re-read from /repo's source on this run
+                    (Gen/VersionedShape.v) -- they stop type-checking when the source loses the shape;
+     C17_*_refuted  what goes wrong when a table entry is not as required (witnesses). *)
 From Coq Require Import ZArith String List.
 Import ListNotations.
-From TP Require Import Base.PyVal Ser.Versioned Ser.VersionedProofs.
+From TP Require Import Base.PyVal Ser.Versioned Ser.VersionedProofs Ser.VersionedDeser Ser.VersionedDeserProofs
+     Gen.VersionedShape Ser.VersionedSrc.
 Local Open Scope string_scope.
 Local Open Scope Z_scope.
 
 Section C17.
   (* the user's FunctionCall functions: any pure (possibly raising) family *)
   Variable fn : N -> list pyval -> res pyval.
+  (* the integer literals of convert_dict: slice offset and increment must be 1 *)
+  Variable p : cd_params.
+  Hypothesis Hp : cd_params_ok p = true.
 
   (* convert_dict applies exactly the mappings from d's version onward, in order *)
   Theorem C17_applies_exact_suffix : forall d maps z,
       has_version d z -> 1 <= z ->
-      convert_dict fn d maps = fold_left (step fn) (skipn (Z.to_nat (z - 1)) maps) (Ok d).
-  Proof. exact (convert_dict_suffix fn). Qed.
+      convert_dict fn p d maps = fold_left (step fn p) (skipn (Z.to_nat (z - 1)) maps) (Ok d).
+  Proof. exact (convert_dict_suffix fn p Hp). Qed.
 
   (* the result carries version len(mappings)+1 *)
   Theorem C17_version : forall d maps z d',
       forallb keeps_version maps = true ->
       has_version d z -> 1 <= z <= Z.of_nat (length maps) + 1 ->
-      convert_dict fn d maps = Ok d' ->
+      convert_dict fn p d maps = Ok d' ->
       has_version d' (Z.of_nat (length maps) + 1).
-  Proof. exact (convert_dict_version fn). Qed.
+  Proof. exact (convert_dict_version fn p Hp). Qed.
 
   (* two-stage conversion through ANY prefix equals converting at once (any history length, any split) *)
   Theorem C17_compose : forall d maps z k d1,
       forallb keeps_version maps = true ->
       has_version d z -> 1 <= z ->
       (k <= length maps)%nat ->
-      convert_dict fn d (firstn k maps) = Ok d1 ->
-      convert_dict fn d1 maps = convert_dict fn d maps.
-  Proof. exact (convert_dict_compose fn). Qed.
+      convert_dict fn p d (firstn k maps) = Ok d1 ->
+      convert_dict fn p d1 maps = convert_dict fn p d maps.
+  Proof. exact (convert_dict_compose fn p Hp). Qed.
 
   (* a document already at (or beyond) the latest version is returned unchanged *)
   Theorem C17_latest_id : forall d maps z,
       has_version d z -> Z.of_nat (length maps) + 1 <= z ->
-      convert_dict fn d maps = Ok d.
-  Proof. exact (convert_dict_latest fn). Qed.
+      convert_dict fn p d maps = Ok d.
+  Proof. exact (convert_dict_latest fn p Hp). Qed.
 
-  (* deserializing from any older version = deserializing the converted latest-version document *)
+  (* deserializing from any older version = deserializing the converted latest-version document,
+     for ANY continuation that reads only the converted document *)
   Theorem C17_deser_any_version : forall (T : Type) (deser : dict -> res T) d maps z d',
       forallb keeps_version maps = true ->
       has_version d z -> 1 <= z <= Z.of_nat (length maps) + 1 ->
-      convert_dict fn d maps = Ok d' ->
-      deser_versioned fn deser maps d = deser_versioned fn deser maps d'.
-  Proof. exact (@deser_versioned_any_version fn). Qed.
+      convert_dict fn p d maps = Ok d' ->
+      deser_versioned fn p deser maps d = deser_versioned fn p deser maps d'.
+  Proof. exact (@deser_versioned_any_version fn p Hp). Qed.
+
+  (* ... and for the modelled deserialize_structure_internal itself (prelude, kept non-field keys,
+     construct_fields_map, constructor), whatever the entry point, class, options: provided every read of
+     a document variable after the prelude is of the converted document *)
+  Theorem C17_deser_internal_any_version : forall pr sites ish e c o d maps z d',
+      sites_ok sites = true ->
+      forallb keeps_version maps = true ->
+      has_version d z -> 1 <= z <= Z.of_nat (length maps) + 1 ->
+      convert_dict fn p d maps = Ok d' ->
+      deser_internal fn p pr sites ish e c o maps d = deser_internal fn p pr sites ish e c o maps d'.
+  Proof. exact (deser_internal_any_version fn p Hp). Qed.
+
+  (* the deserialized instance carries the latest version *)
+  Theorem C17_deser_internal_version : forall pr sites ish e c o d maps st,
+      init_shape_ok ish = true ->
+      deser_internal fn p pr sites ish e c o maps d = Ok st ->
+      has_version st (Z.of_nat (length maps) + 1).
+  Proof. exact (deser_internal_version fn p). Qed.
+
+  (* no attribute of the instance comes from anywhere but the converted document *)
+  Theorem C17_deser_internal_keys_from_converted : forall pr sites ish e c o d maps z d' st k,
+      sites_ok sites = true ->
+      forallb keeps_version maps = true ->
+      has_version d z -> 1 <= z <= Z.of_nat (length maps) + 1 ->
+      convert_dict fn p d maps = Ok d' ->
+      deser_internal fn p pr sites ish e c o maps d = Ok st ->
+      k <> ver -> dict_get d' (PStr k) = None -> dict_get st (PStr k) = None.
+  Proof. exact (deser_internal_keys_from_converted fn p Hp). Qed.
 
   (* a newly constructed instance always carries the latest version *)
   Theorem C17_new_instance_latest : forall maps kw,
       has_version (versioned_init_kwargs maps kw) (Z.of_nat (length maps) + 1).
   Proof. exact versioned_init_latest. Qed.
+
+  (* ---- instantiated at the source's current tables *)
+
+  Theorem C17_src_shapes_ok :
+    cd_params_ok gen_cd_params = true /\ init_shape_ok gen_init_shape = true /\
+    prelude_ok gen_prelude = true /\ sites_ok gen_deser_sites = true.
+  Proof. exact gen_shapes_ok. Qed.
+
+  Theorem C17_src_applies_exact_suffix : forall d maps z,
+      has_version d z -> 1 <= z ->
+      convert_dict fn gen_cd_params d maps
+      = fold_left (step fn gen_cd_params) (skipn (Z.to_nat (z - 1)) maps) (Ok d).
+  Proof. exact (src_convert_dict_suffix fn). Qed.
+
+  Theorem C17_src_version : forall d maps z d',
+      forallb keeps_version maps = true ->
+      has_version d z -> 1 <= z <= Z.of_nat (length maps) + 1 ->
+      convert_dict fn gen_cd_params d maps = Ok d' ->
+      has_version d' (Z.of_nat (length maps) + 1).
+  Proof. exact (src_convert_dict_version fn). Qed.
+
+  Theorem C17_src_compose : forall d maps z k d1,
+      forallb keeps_version maps = true ->
+      has_version d z -> 1 <= z ->
+      (k <= length maps)%nat ->
+      convert_dict fn gen_cd_params d (firstn k maps) = Ok d1 ->
+      convert_dict fn gen_cd_params d1 maps = convert_dict fn gen_cd_params d maps.
+  Proof. exact (src_convert_dict_compose fn). Qed.
+
+  Theorem C17_src_deser_any_version : forall e c o d maps z d',
+      forallb keeps_version maps = true ->
+      has_version d z -> 1 <= z <= Z.of_nat (length maps) + 1 ->
+      convert_dict fn gen_cd_params d maps = Ok d' ->
+      deser_internal fn gen_cd_params gen_prelude gen_deser_sites gen_init_shape e c o maps d
+      = deser_internal fn gen_cd_params gen_prelude gen_deser_sites gen_init_shape e c o maps d'.
+  Proof. exact (src_deser_any_version fn). Qed.
+
+  Theorem C17_src_deser_version : forall e c o d maps st,
+      deser_internal fn gen_cd_params gen_prelude gen_deser_sites gen_init_shape e c o maps d = Ok st ->
+      has_version st (Z.of_nat (length maps) + 1).
+  Proof. exact (src_deser_version fn). Qed.
+
+  Theorem C17_src_deser_keys_from_converted : forall e c o d maps z d' st k,
+      forallb keeps_version maps = true ->
+      has_version d z -> 1 <= z <= Z.of_nat (length maps) + 1 ->
+      convert_dict fn gen_cd_params d maps = Ok d' ->
+      deser_internal fn gen_cd_params gen_prelude gen_deser_sites gen_init_shape e c o maps d = Ok st ->
+      k <> ver -> dict_get d' (PStr k) = None -> dict_get st (PStr k) = None.
+  Proof. exact (src_deser_keys_from_converted fn). Qed.
+
+  Theorem C17_src_new_instance_latest : forall maps kw,
+      has_version (versioned_init_kwargs_s gen_init_shape maps kw) (Z.of_nat (length maps) + 1).
+  Proof. exact src_new_instance_latest. Qed.
 End C17.
+
+(* ---- witnesses: a read of the caller's document after the prelude, a constructor that only fills in a
+   missing version *)
+Theorem C17_deser_raw_undefined_refuted :
+  convert_dict std_fn std_cd_params w_doc w_maps = Ok w_conv /\
+  deser_internal std_fn std_cd_params std_prelude raw_undefined_sites (InitForce 1) EDeserializer
+                 w_class w_opts w_maps w_doc
+  <> deser_internal std_fn std_cd_params std_prelude raw_undefined_sites (InitForce 1) EDeserializer
+                    w_class w_opts w_maps w_conv.
+Proof. exact deser_raw_undefined_refuted. Qed.
+
+Theorem C17_deser_raw_fields_refuted :
+  deser_internal std_fn std_cd_params std_prelude raw_fields_sites (InitForce 1) EDeserializer
+                 w_class w_opts w_maps w_doc
+  <> deser_internal std_fn std_cd_params std_prelude raw_fields_sites (InitForce 1) EDeserializer
+                    w_class w_opts w_maps w_conv.
+Proof. exact deser_raw_fields_refuted. Qed.
+
+Theorem C17_deser_raw_trusted_refuted :
+  deser_internal std_fn std_cd_params std_prelude raw_trusted_sites (InitForce 1) EDeserializer
+                 w_class w_opts_trusted w_maps w_doc
+  <> deser_internal std_fn std_cd_params std_prelude raw_trusted_sites (InitForce 1) EDeserializer
+                    w_class w_opts_trusted w_maps w_conv.
+Proof. exact deser_raw_trusted_refuted. Qed.
+
+Theorem C17_init_setdefault_refuted :
+  dict_get (versioned_init_kwargs_s (InitSetDefault 1) w_maps [ (PStr (s2p "version"), PNum (NInt 1)) ]) version_key
+  <> Some (PNum (NInt 2)).
+Proof. exact init_setdefault_refuted. Qed.
 
 Print Assumptions C17_applies_exact_suffix.
 Print Assumptions C17_version.
 Print Assumptions C17_compose.
 Print Assumptions C17_latest_id.
 Print Assumptions C17_deser_any_version.
+Print Assumptions C17_deser_internal_any_version.
+Print Assumptions C17_deser_internal_version.
+Print Assumptions C17_deser_internal_keys_from_converted.
 Print Assumptions C17_new_instance_latest.
+Print Assumptions C17_src_shapes_ok.
+Print Assumptions C17_src_applies_exact_suffix.
+Print Assumptions C17_src_version.
+Print Assumptions C17_src_compose.
+Print Assumptions C17_src_deser_any_version.
+Print Assumptions C17_src_deser_version.
+Print Assumptions C17_src_deser_keys_from_converted.
+Print Assumptions C17_src_new_instance_latest.
+Print Assumptions C17_deser_raw_undefined_refuted.
+Print Assumptions C17_deser_raw_fields_refuted.
+Print Assumptions C17_deser_raw_trusted_refuted.
+Print Assumptions C17_init_setdefault_refuted.
 
 (* non-vacuity: a concrete two-step history (move a key, add a constant, delete, nested mapper,
    function call) starting at version 1 satisfies the hypotheses and converts to version 3 *)
@@ -72,10 +210,32 @@ Definition ex_doc : dict :=
     (PStr (s2p "sub"), PList [ PDict [ (PStr (s2p "x"), PNum (NInt 1)) ] ]) ].
 
 Example C17_nonvacuous :
-  forallb keeps_version ex_maps = true /\ has_version ex_doc 1 /\
-  exists d', convert_dict std_fn ex_doc ex_maps = Ok d' /\ has_version d' 3 /\
+  cd_params_ok std_cd_params = true /\ forallb keeps_version ex_maps = true /\ has_version ex_doc 1 /\
+  exists d', convert_dict std_fn std_cd_params ex_doc ex_maps = Ok d' /\ has_version d' 3 /\
              dict_get d' (PStr (s2p "name")) = Some (PStr (s2p "joe")) /\
              dict_get d' (PStr (s2p "old")) = None.
+Proof.
+  split; [vm_compute; reflexivity|]. split; [vm_compute; reflexivity|]. split; [vm_compute; reflexivity|].
+  eexists. split; [vm_compute; reflexivity|]. vm_compute. repeat split; reflexivity.
+Qed.
+
+(* non-vacuity of the deserialization theorems: the generated tables pass the predicates (C17_src_shapes_ok), and a
+   version-1 document whose history renames a key deserializes, through the source's current tables, to an
+   instance at version 2 that has the new attribute, keeps an undeclared one, and does not have the old one *)
+Definition ex_dclass : vclass :=
+  {| vc_fields := [s2p "new"]; vc_required := [s2p "new"]; vc_additional := None; vc_trusted_eligible := false |}.
+Definition ex_dopts : dopts :=
+  {| o_keep_undefined := Some true; o_trusted := false; o_additional_default := true;
+     o_ignore_invalid_additional := true |}.
+Definition ex_ddoc : dict := (w_doc ++ [ (PStr (s2p "note"), PStr (s2p "vip")) ])%list.
+Example C17_deser_nonvacuous :
+  forallb keeps_version w_maps = true /\ has_version ex_ddoc 1 /\
+  exists st, deser_internal std_fn gen_cd_params gen_prelude gen_deser_sites gen_init_shape EDeserializer
+                            ex_dclass ex_dopts w_maps ex_ddoc = Ok st /\
+             has_version st 2 /\
+             dict_get st (PStr (s2p "new")) = Some (PNum (NInt 5)) /\
+             dict_get st (PStr (s2p "note")) = Some (PStr (s2p "vip")) /\
+             dict_get st (PStr (s2p "old")) = None.
 Proof.
   split; [vm_compute; reflexivity|]. split; [vm_compute; reflexivity|].
   eexists. split; [vm_compute; reflexivity|]. vm_compute. repeat split; reflexivity.
